@@ -8,7 +8,7 @@ from ..seams import CLOCK, F, T, reset_world, LIB_ERRORS
 from ..core import real
 from ..oracle import (ACCEPT, REJECT, EITHER, slack3, slack_tripped_int, validsig,
                       ed_verify, pubkey_of_seed, as_key_arg, PREFIXES, DECORATIONS, SUFFIXES,
-                      LOCK_FORMS, LIMITS, in_form, code_of)
+                      LOCK_FORMS, LIMITS, in_form, code_of, WRAPS, wrap_lock)
 
 PID = 'C14'
 ISOLATE = True      # one forked process per run: nothing a run does to process-global
@@ -52,7 +52,8 @@ REQUIRED_PROBES = ['t==begin', 't==end-1', 't==end'] + \
      'honest_accept_single', 'honest_accept_chain', 'threshold_per_call',
      'second_hierarchy', 'foreign_witness_verified_under_own_root_first',
      'default_timestamp', 'crafted_witness', 'witness_with_code', 'witness_ending_in_return',
-     'crafted_marker', 'chain_len_long', 'lock_form_bytes', 'lock_form_resrc', 'lock_form_redec', 'explicit_limits']
+     'crafted_marker', 'chain_len_long', 'lock_form_bytes', 'lock_form_resrc', 'lock_form_redec', 'explicit_limits'] + \
+    ['lock_wrapped_' + x for x in sorted(set(WRAPS) - {'none'})]
 NAMES = ['K', 'Kp'] + ['D%d' % i for i in range(1, 7)] + ['F%d' % i for i in range(1, 7)]
 FIELD_RANGE = {'key': (0, 32), 'begin': (32, 36), 'end': (36, 40), 'can': (40, 41),
                'sig': (41, 105)}
@@ -144,6 +145,7 @@ def gen_step(rng, cell, clocks, vname, at_us, thr, fault_free):
             'keys': rng.choice(['bytes', 'bytes', 'object']), 'prefix': rng.choice(PREFIXES),
             'cert_as': rng.choice(['bytes', 'object']), 'decor': rng.choice(DECORATIONS), 'suffix': rng.choice(SUFFIXES),
             'form': rng.choice(LOCK_FORMS), 'limits': rng.below(len(LIMITS)),
+            'wrap': rng.choice(WRAPS),
             't': t, 'thr': thr, 'chain': chain, 'signer': dn(pre, ln),
             'allowed': rng.choice(['00', '00', '01', '03', '80', 'c1']), 'flag': '00',
             'sigfields': {'sigfield%d' % k: rng.bytes(rng.choice([0, 1, 16, 64, 64, 255, 256, 300])).hex()
@@ -394,6 +396,11 @@ def execute(plan, run):
         lock = real('make_delegate_key_lock', T.make_delegate_key_lock if step['lock'] == 'single'
                     else T.make_delegate_key_chain_lock,
                     as_key_arg('pub', root_pk, step.get('keys', 'bytes')), step['allowed'])
+        if step.get('wrap', 'none') != 'none':
+            # the lock is committed to by a wrapper; the reveal is appended to the witness
+            run.probe('lock_wrapped_' + step['wrap'])
+            lock, reveal = real('wrap_lock(' + step['wrap'] + ')', wrap_lock, lock, step['wrap'])
+            w = T.Script('# witness + reveal #', w.bytes + reveal)
         if step.get('decor'):
             run.probe('witness_with_code')
             w = T.Script('# decorated witness #', T.compile_script(step['decor']) + w.bytes)
